@@ -860,10 +860,14 @@ class Run:
                 self.interposer.uninstall()
 
     def _run(self):
+        cwd0 = os.getcwd()
         try:
             for step in self.sc['steps']:
                 op = step['op']
-                if op == 'ext':
+                if op == 'chdir':
+                    # the process changes its working directory between calls: relative spellings mean other files
+                    os.chdir(self.sb.path(step['p']))
+                elif op == 'ext':
                     self.sb.ext(step)
                 elif op == 'build':
                     self.do_build(step)
@@ -874,6 +878,7 @@ class Run:
                 else:
                     raise ValueError(op)
         finally:
+            os.chdir(cwd0)
             self.sb.destroy()
         out = {'id': self.sc.get('id', ''), 'cache': list(self.sb.cache_path),
                'events': [e for e in self.events if e['ev'] != 'handoff']}
